@@ -187,6 +187,11 @@ def corner_recipes(rng, S):
         ['rscal', 2.0, ['sum', ['lin', b, 0.0], ['zero']]],
         ['trans', fc.rvec(rng, n), ['trans', fc.rvec(rng, n), ['l2sq']]],
         ['rscal', 2.0, ['trans', fc.rvec(rng, n), ['lin', b, 0.0]]],
+        ['rscal', 0.0, ['ssum', 1.0, ['l2sq']]],               # f * 0  ->  constant f(0)
+        ['lscal', 0.0, ['l1']],                                # 0 * f  ->  zero functional
+        ['rscal', -2.0, ['huber', 0.5]] if not S.is_pspace else ['rscal', -2.0, ['l1']],
+        ['qp', 4.0, fc.rvec(rng, n, -1, 1, 8), 0.0, ['zero']],  # 2|a| dominates ||u||
+        ['breg', fc.rvec(rng, n), 'grad', ['qp', 2.0, None, 0.0, ['l2sq']]],
     ]
 
 
